@@ -124,20 +124,21 @@ type App struct {
 	book *accountBook
 
 	// --- objects rebuilt by build() (and therefore by Restart) ---
-	bapp    *baseapp.BaseApp
-	ir      codectypes.InterfaceRegistry
-	cdc     *codec.ProtoCodec
-	txCfg   client.TxConfig
-	keys    map[string]*storetypes.KVStoreKey
-	ak      authkeeper.AccountKeeper
-	bk      bankkeeper.BaseKeeper
-	eco     *ecocreditmodule.Module
-	dataMod *datamodule.Module
-	dataGen genesisModule
-	ecoDB   ormdb.ModuleDB
-	dataDB  ormdb.ModuleDB
-	tables  []*tableHandle
-	invs    []invariantRoute
+	bapp          *baseapp.BaseApp
+	ir            codectypes.InterfaceRegistry
+	cdc           *codec.ProtoCodec
+	txCfg         client.TxConfig
+	keys          map[string]*storetypes.KVStoreKey
+	ak            authkeeper.AccountKeeper
+	bk            bankkeeper.BaseKeeper
+	eco           *ecocreditmodule.Module
+	dataMod       *datamodule.Module
+	dataGen       genesisModule
+	ecoDB         ormdb.ModuleDB
+	dataDB        ormdb.ModuleDB
+	tables        []*tableHandle
+	singletonKeys map[string]*tableHandle // raw store key → singleton table
+	invs          []invariantRoute
 
 	// --- chain progress (survives Restart) ---
 	genesis    map[string]json.RawMessage // effective genesis (set by InitChain / New)
@@ -146,6 +147,7 @@ type App struct {
 	blockOpen  bool                       // BeginBlock called and not yet committed
 	header     tmproto.Header             // header of the open (or last) block
 	lastBegin  beginOutcome
+	rawScanOff bool // Snapshot fast path disabled (undecodable key seen)
 }
 
 type beginOutcome struct {
@@ -266,6 +268,7 @@ func (a *App) build() {
 	if err != nil {
 		panic(err)
 	}
+	a.singletonKeys = nil
 	a.tables = buildTableHandles(a)
 
 	a.invs = nil
@@ -509,8 +512,9 @@ func (a *App) DeliverRaw(txBytes []byte) StepResult {
 	}
 	res.Events = convertEvents(resp.Events)
 	res.OK = resp.Code == 0
-	res.Log = resp.Log
 	if resp.Code != 0 {
+		// (the log of a successful tx only repeats the events as JSON and is dropped)
+		res.Log = resp.Log
 		if isPanicResponse(resp) {
 			res.Panicked = true
 			res.Log, res.PanicValue, res.PanicStack = splitPanicLog(resp.Log)
@@ -629,6 +633,15 @@ func (a *App) readCtx() sdk.Context {
 	}
 	cctx, _ := ctx.CacheContext()
 	return cctx
+}
+
+// snapCtx is the context Snapshot reads through: the working / committed state WITHOUT the extra
+// cache layer (Snapshot only ever calls read methods; skipping the layer makes iteration ~2x faster).
+func (a *App) snapCtx() sdk.Context {
+	if a.hasWorking {
+		return a.bapp.NewContext(false, a.header)
+	}
+	return a.bapp.NewUncachedContext(false, a.header)
 }
 
 // ReadContext exposes readCtx for monitors that want to call keepers directly.
